@@ -953,8 +953,8 @@ def cli_features(job, e):
     runs = [n for i, n in enumerate(names) if i == 0 or names[i - 1] != n]
     if len(set(runs)) < len(runs):
         feats.add('type-recurs-after-interruption')
-    if any(c >= 2 for _, c in [(m['name'], m['n']) for m in e['top']['molecules']]):
-        feats.add('count-above-one')
+    if any(a == b for a, b in zip(names, names[1:])):
+        feats.add('count-above-one')                 # two successive molecules of one type: a [ molecules ] count of 2 is due
     if e['opt']['sep'] and len(set(own)) < len(own):
         feats.add('sep-on-identical-chains')
     if e['opt']['molname'] != 'molecule':
@@ -1154,6 +1154,7 @@ def run(tier, seed, ev, vd):
         'one"): counted as observation caller-named-clash-not-refused, a refusal would be accepted; consistent caller names '
         'are judged like any other run',
     ]
+    problems = []          # vacuity / failed runs: machinery failures, raised at the end unless a violation was found anyway
     jobs = []
     for ui, (uni, maxmols) in enumerate(universes(tier, seed)):
         res = tlc.run('Output', CFG, consts=consts_of(uni, maxmols), dump=True, timeout=2400)
@@ -1176,8 +1177,8 @@ def run(tier, seed, ev, vd):
             ran = [a.get() for a in cli_async]
             for r in ran:
                 if 'error' in r:
-                    raise tlc.MachineryError('martinize2 run failed (%s): %s' % (r['origin'], r['error']))
-            shards = common.chunks([r['path'] for r in ran], 4 if quick else tlc.NCPU)
+                    problems.append('martinize2 run failed (%s): %s' % (r['origin'], r['error']))
+            shards = common.chunks([r['path'] for r in ran if 'path' in r], 4 if quick else tlc.NCPU)
             judged_async = pool.map_async(_cli_judge, shards, chunksize=1)
             outs = tab_async.get()
             rand_parts = rand_async.get()
@@ -1191,7 +1192,7 @@ def run(tier, seed, ev, vd):
         n = sum(o['n'] for o in mine)
         seen = set().union(*[o['seen'] for o in mine])
         if n == 0 or len(seen) < 6:      # vacuity: (dedup: shared | none shared; no dedup) x sorted or not
-            raise tlc.MachineryError('vacuous model for universe %d: %d final states, cases %s' % (ui, n, sorted(seen)))
+            problems.append('vacuous model for universe %d: %d final states, cases %s' % (ui, n, sorted(seen)))
         nsys += n
     for o in outs:
         ev.nontrivial.update(o['nontrivial'])
@@ -1205,7 +1206,7 @@ def run(tier, seed, ev, vd):
         raise tlc.MachineryError('replayed %d systems, judged %d' % (nsys, tab['n']))
     for leg in ('gro', 'rb', 'again'):
         if tab['legs'][leg] == 0:
-            raise tlc.MachineryError('vacuous: no replayed system had the %r leg' % leg)
+            problems.append('vacuous: no replayed system had the %r leg' % leg)
     ev.traces += nsys
     ev.evaluations += nsys
     ev.states += tab['tlc'][0]
@@ -1228,7 +1229,7 @@ def run(tier, seed, ev, vd):
             vd.violation('writer-raised', x['scenario'], 'real run raised %s' % x['error'])
     for leg in ('gro', 'rb', 'again', 'hist', 'caller-named', 'wide-name', 'wide-number', OBS_CLASH):
         if rnd['legs'].get(leg, 0) == 0:
-            raise tlc.MachineryError('vacuous: no random system exercised %r' % leg)
+            problems.append('vacuous: no random system exercised %r' % leg)
     ev.traces += rnd['n']
     ev.evaluations += rnd['n']
     ev.states += rnd['tlc'][0]
@@ -1237,14 +1238,14 @@ def run(tier, seed, ev, vd):
                         'distinct_states': rnd['tlc'][0], 'states_generated': rnd['tlc'][1], 'wall_s': round(rnd['tlc'][2], 2),
                         'legs': rnd['legs'], 'clauses_failed': rnd['counts']})
     report(rnd, ev, vd, 'random system')
-    ev.extra['caller_named_clash_not_refused'] = rnd['legs'][OBS_CLASH]
-    ev.extra['caller_named_systems'] = rnd['legs']['caller-named']
+    ev.extra['caller_named_clash_not_refused'] = rnd['legs'].get(OBS_CLASH, 0)
+    ev.extra['caller_named_systems'] = rnd['legs'].get('caller-named', 0)
     # --- the command line
     cli = [r for part, _ in judged for r in part]
     feats = set()
     kept, counts = {}, {}
     dist, gen = sum(st[0] for _, st in judged), sum(st[1] for _, st in judged)
-    wall = max(st[2] for _, st in judged)
+    wall = max([st[2] for _, st in judged] or [0.0])
     observations = {'x-holds-pdb-text': 0, 'atom-type-declared-more-than-once': 0}
     for r in cli:
         feats.update(r['features'])
@@ -1257,7 +1258,7 @@ def run(tier, seed, ev, vd):
             kept.setdefault(p, []).append(r['event'])
     missing = CLI_MUST[tier] - feats
     if missing:
-        raise tlc.MachineryError('vacuous command-line family: never exercised %s' % sorted(missing))
+        problems.append('vacuous command-line family: never exercised %s' % sorted(missing))
     ev.states += dist
     ev.transitions += gen
     ev.traces += len(cli)
@@ -1269,7 +1270,13 @@ def run(tier, seed, ev, vd):
     report({'kept': kept, 'counts': counts}, ev, vd, 'recorded run')
     ev.extra['trace_events'] = {'random_systems': rnd['n'], 'cli_runs': len(cli), 'cli_features': sorted(feats),
                                 'observations': observations, 'cli': [r['brief'] for r in cli]}
-    ev.sample(cli[0]['sample'], limit=3)
+    if cli:
+        ev.sample(cli[0]['sample'], limit=3)
+    if problems:
+        if not vd.violations:
+            raise tlc.MachineryError('; '.join(problems))
+        for p in problems:
+            print('NOTE property=C03 machinery problem next to the violations: %s' % p[:600])
 
 
 def replay(sc):
